@@ -76,7 +76,7 @@ def run(ctx):
     ctx.not_decided = ['equality of results with NumPy for all operand values', 'index-in-range', 'broadcasting results']
     d1 = ctx.rule('D1', 'no stored zero (D-nz)', floor=150)
     d2 = ctx.rule('D2', 'read-only gate', floor=6)
-    d3 = ctx.rule('D3', 'operand purity / fresh result of kernels', floor=24)
+    d3 = ctx.rule('D3', 'operand purity / fresh result of kernels', floor=24, observational=True)
     d4 = ctx.rule('D4', 'dispatcher exhaustiveness', floor=100)
     d5 = ctx.rule('D5', 'size dispatch ends in ValueError', floor=20)
     m = prog.module(SP)
@@ -179,7 +179,7 @@ def run(ctx):
     index_range(ctx, d6)
     d7 = ctx.rule('D7', 'an in-place kernel never changes the size of its target', floor=30)
     inplace_keeps_size(ctx, d7, classes)
-    d3b = ctx.rule('D3b', 'results are never built on an operand\'s storage (from_dict / returned dicts)', floor=60)
+    d3b = ctx.rule('D3b', 'results are never built on an operand\'s storage (from_dict / returned dicts)', floor=60, observational=True)
     allf = []
     for c in classes:
         seen = set()
